@@ -226,12 +226,12 @@ def ReduceOut (P : List Tree) (ecur : NExpr) (op : BinOp) (st : Stack)
     (stack' : List (Nat × Nat × Bool)) (b' : Builder) : Prop :=
   ∃ G1 Y v st1 c1 stack1, reduceA ecur op st = (v, op) :: st1 ∧
     stack' = (c1, op.prio, false) :: stack1 ∧ b'.forest = P ++ G1 ++ Y ∧
-    StackOK b' P.length G1 stack1 st1 ∧ OpenSeg Y v ∧ Pos b' c1 (P.length + G1.length)
+    StackOK b' P.length G1 stack1 st1 ∧ OpenSeg op.prio Y v ∧ Pos b' c1 (P.length + G1.length)
 
 theorem reduce_sim (cur : Nat) (op : BinOp) (P : List Tree) :
     ∀ (stack : List (Nat × Nat × Bool)) (st : Stack) (G : List Tree) (x : Tree) (ecur : NExpr)
       {s : PState}, StackOK s.b P.length G stack st → st ≠ [] → s.b.forest = P ++ G ++ [x] →
-      Represents x ecur → Good s.b → NoNext s.b →
+      RepresentsL x ecur → Good s.b → NoNext s.b →
       (topPrio st < op.prio → Pos s.b cur (P.length + G.length)) →
       Tot (reduce cur op.prio false stack) s (fun stack' s' =>
         s'.toks = s.toks ∧ Good s'.b ∧ NoNext s'.b ∧ Ext P.length s.b s'.b ∧
@@ -258,8 +258,8 @@ theorem reduce_sim (cur : Nat) (op : BinOp) (P : List Tree) :
       have hN := segOK_close id hseg hx
       have hso1 : StackOK s1.b P.length G' rest st' := hso'.mono e1
       have hle : P.length ≤ P.length + G'.length := Nat.le_add_right _ _
-      have hOpen : OpenSeg [Tree.node id .OPERATION (S ++ [x])] (.bin o acc ecur) :=
-        openSeg_single (W := []) wsTrees_nil hN
+      have hOpen : OpenSeg op.prio [Tree.node id .OPERATION (S ++ [x])] (.bin o acc ecur) :=
+        openSeg_single (W := []) op.prio wsTrees_nil hN
       have hro : ∀ stack' b', ReduceOut P (.bin o acc ecur) op st' stack' b' →
           ReduceOut P ecur op ((acc, o) :: st') stack' b' := by
         intro stack' b' hr
@@ -286,24 +286,24 @@ theorem reduce_sim (cur : Nat) (op : BinOp) (P : List Tree) :
       · -- push a new frame
         simp only [h2, ↓reduceIte]
         refine tot_pure ⟨rfl, hg, hn, Ext.refl (by rw [hf]; simp), G' ++ S, [x], ecur, _, cur, _,
-          ?_, rfl, hf, .cons hso' hseg hpos, openSeg_single (W := []) wsTrees_nil hx,
+          ?_, rfl, hf, .cons hso' hseg hpos, openSeg_single (W := []) op.prio wsTrees_nil hx,
           hcur (by simpa [topPrio] using h2)⟩
         exact reduceA_push _ op _ (by simpa [topPrio] using h2)
       · -- same priority: the frame absorbs the operand
         simp only [h2, ↓reduceIte]
         have heq : o.prio = op.prio := by omega
         refine tot_pure ⟨rfl, hg, hn, Ext.refl (by rw [hf]; simp), G', S ++ [x], _, st', c, rest,
-          reduceA_eq h1 (by omega), by rw [heq], by rw [hf]; simp, hso', segOK_extend hseg hx, hpos⟩
+          reduceA_eq h1 (by omega), by rw [heq], by rw [hf]; simp, hso', heq ▸ segOK_extend hseg hx, hpos⟩
 
 /-! ### `closeAll` simulates `closeAllA` -/
 
 theorem closeAll_sim (P : List Tree) :
     ∀ (stack : List (Nat × Nat × Bool)) (st : Stack) (G : List Tree) (x : Tree) (ecur : NExpr)
       {s : PState}, StackOK s.b P.length G stack st → s.b.forest = P ++ G ++ [x] →
-      Represents x ecur → Good s.b → NoNext s.b →
+      RepresentsL x ecur → Good s.b → NoNext s.b →
       Tot (closeAll stack) s (fun _ s' =>
         s'.toks = s.toks ∧ Good s'.b ∧ NoNext s'.b ∧ Ext P.length s.b s'.b ∧
-        ∃ x', s'.b.forest = P ++ [x'] ∧ Represents x' (closeAllA ecur st)) := by
+        ∃ x', s'.b.forest = P ++ [x'] ∧ RepresentsL x' (closeAllA ecur st)) := by
   intro stack
   induction stack with
   | nil =>
@@ -339,9 +339,9 @@ def LoopInv (b : Builder) (P : List Tree) (opn : Nat) (first : Bool)
 def AfterInv (b : Builder) (P : List Tree) (opn : Nat) (first : Bool)
     (stack : List (Nat × Nat × Bool)) (st : Stack) (cur : Nat) (ecur : NExpr) : Prop :=
   if first then stack = [] ∧ st = [] ∧ ∃ W x, b.forest = P ++ W ++ [x] ∧ WSTrees W ∧
-      Represents x ecur ∧ Pos b opn P.length ∧ Pos b cur (P.length + W.length)
+      RepresentsL x ecur ∧ Pos b opn P.length ∧ Pos b cur (P.length + W.length)
   else ∃ G x, b.forest = P ++ G ++ [x] ∧ StackOK b P.length G stack st ∧ st ≠ [] ∧
-      Represents x ecur ∧ Pos b cur (P.length + G.length)
+      RepresentsL x ecur ∧ Pos b cur (P.length + G.length)
 
 theorem opInfo_opTok (op : BinOp) : opInfo (opTok op).kind = some (op.prio, opKind op, false) := by
   cases op <;> rfl
@@ -374,7 +374,7 @@ theorem afterValue_op {s : PState} {P : List Tree} {opn : Nat} {first : Bool}
       (st1 : Stack) (c1 : Nat) (stackr : List (Nat × Nat × Bool)),
       s1.toks = s.toks → Good s1.b → Ext P.length s.b s1.b →
       reduceA ecur op st = (v, op) :: st1 → stack1 = (c1, op.prio, false) :: stackr →
-      s1.b.forest = P ++ G1 ++ Y → StackOK s1.b P.length G1 stackr st1 → OpenSeg Y v →
+      s1.b.forest = P ++ G1 ++ Y → StackOK s1.b P.length G1 stackr st1 → OpenSeg op.prio Y v →
       Pos s1.b c1 (P.length + G1.length) →
       Tot (do bumpN Wk.length; bumpNode (opKind op); let skip ← countSkip
               opLoop F opn stack1 false skip) s1 Q := by
@@ -403,7 +403,7 @@ theorem afterValue_op {s : PState} {P : List Tree} {opn : Nat} {first : Bool}
       fun stack1 s1 ⟨hs1, hs⟩ => ?_
     subst hs
     exact tail s1 stack1 [] (W ++ [x]) ecur [] opn [] rfl hg (Ext.refl (by rw [hf]; simp)) rfl hs1
-      (by rw [hf]; simp) .nil (openSeg_single hW hx) (by simpa using hpo)
+      (by rw [hf]; simp) .nil (openSeg_single op.prio hW hx) (by simpa using hpo)
   | false =>
     simp only [AfterInv, Bool.false_eq_true, ↓reduceIte] at hinv
     obtain ⟨G, x, hf, hso, hne, hx, hpc⟩ := hinv
@@ -426,7 +426,7 @@ theorem afterValue_end {s : PState} {P : List Tree} {opn : Nat} {first : Bool}
     (ht : s.toks = Wk ++ K') (hwk : AllWS Wk) (hk : EndKind (headKind K')) :
     Tot (afterValue F opn stack first cur) s (fun r s' => r = some Wk.length ∧ s'.toks = s.toks ∧
       Good s'.b ∧ NoNext s'.b ∧ Ext P.length s.b s'.b ∧
-      ∃ W x', s'.b.forest = P ++ W ++ [x'] ∧ WSTrees W ∧ Represents x' (closeAllA ecur st)) := by
+      ∃ W x', s'.b.forest = P ++ W ++ [x'] ∧ WSTrees W ∧ RepresentsL x' (closeAllA ecur st)) := by
   unfold afterValue
   refine tot_countSkip_ws Wk _ ht hwk (followKind_notWS (endKind_follow hk)) ?_
   refine tot_nth_ws Wk _ ht ?_
@@ -456,7 +456,7 @@ def ValueSpec (e : NExpr) : Prop :=
   ∃ Fe, ∀ (ws : Layout) (s : PState) (W0 K : List Token), WF e → LayoutOK e ws → Good s.b →
     s.toks = W0 ++ (toks e ws ++ K) → AllWS W0 → Follow K →
     Tot (Grammar.value Fe W0.length) s (fun r s' => ∃ cur Wt x, r = some cur ∧ s'.toks = K ∧
-      s'.b.forest = s.b.forest ++ Wt ++ [x] ∧ WSTrees Wt ∧ Represents x e ∧
+      s'.b.forest = s.b.forest ++ Wt ++ [x] ∧ WSTrees Wt ∧ RepresentsL x e ∧
       Pos s'.b cur (s.b.forest.length + Wt.length) ∧ Good s'.b ∧ NoNext s'.b ∧
       Ext s.b.forest.length s.b s'.b)
 
@@ -480,7 +480,7 @@ def OpSpec (e : NExpr) : Prop :=
   ∃ Fe, ∀ (ws : Layout) (s : PState) (W0 Wk K' : List Token), WF e → LayoutOK e ws → Good s.b →
     s.toks = W0 ++ (toks e ws ++ (Wk ++ K')) → AllWS W0 → AllWS Wk → EndKind (headKind K') →
     Tot (operation Fe W0.length) s (fun r s' => ∃ Wt x, r = some Wk.length ∧ s'.toks = Wk ++ K' ∧
-      s'.b.forest = s.b.forest ++ Wt ++ [x] ∧ WSTrees Wt ∧ Represents x e ∧
+      s'.b.forest = s.b.forest ++ Wt ++ [x] ∧ WSTrees Wt ∧ RepresentsL x e ∧
       Good s'.b ∧ NoNext s'.b ∧ Ext s.b.forest.length s.b s'.b)
 
 theorem stackOK_isUnit {b : Builder} {n : Nat} {G : List Tree} {stack : List (Nat × Nat × Bool)}
@@ -693,7 +693,7 @@ def ArgsSpec (es : List NExpr) : Prop :=
     ct.kind = .CLOSE_PAREN → WFList es → LayoutOKArgs es ws → Good s.b →
     s.toks = Wa ++ (toksArgs es ws ++ (Wk ++ ct :: K)) → AllWS Wa → AllWS Wk →
     Tot (argsLoop Fe) s (fun r s' => ∃ A, r = some Wk.length ∧ s'.toks = Wk ++ ct :: K ∧
-      s'.b.forest = s.b.forest ++ A ∧ ArgsR Represents (opKids A) es ∧
+      s'.b.forest = s.b.forest ++ A ∧ ArgsR RepresentsL (opKids A) es ∧
       Good s'.b ∧ NoNext s'.b ∧ Ext s.b.forest.length s.b s'.b)
 
 theorem headKind_toks_ne_close (e : NExpr) (ws : Layout) (K : List Token) :
@@ -774,10 +774,10 @@ def CallArgsSpec (args : List NExpr) : Prop :=
     s.toks = argToks args ws ++ ct :: K →
     Tot (callArguments Fe) s (fun r s' => ∃ aid aks tail, r = true ∧ s'.toks = K ∧
       s'.b.forest = s.b.forest ++ [.node aid .FN_ARGUMENTS aks] ++ tail ∧ opKids tail = [] ∧
-      (args = [] → aks = []) ∧ (args ≠ [] → ArgsR Represents (opKids aks) args) ∧
+      (args = [] → aks = []) ∧ (args ≠ [] → ArgsR RepresentsL (opKids aks) args) ∧
       Good s'.b ∧ NoNext s'.b ∧ Ext s.b.forest.length s.b s'.b)
 
-theorem argsR_ne {ts : List Tree} {es : List NExpr} (h : ArgsR Represents ts es) (hne : es ≠ []) :
+theorem argsR_ne {ts : List Tree} {es : List NExpr} (h : ArgsR RepresentsL ts es) (hne : es ≠ []) :
     ts ≠ [] := by
   cases h with
   | nil => exact absurd rfl hne
@@ -925,7 +925,7 @@ theorem value_call (f : Fn) (args : List NExpr) (hop : ∀ a ∈ args, OpSpec a)
     refine .call (nm := .node idn .FN_NAME [.node idw .WORD [.tok idt .WORD f.name]])
       (aid := aid) (aks := aks) (more := []) ?_ rfl ?_ hxs (hxs ▸ hA)
     · rw [hsplit]
-      simp only [opKids_append, hnm, opKids_tok, htail, List.append_nil, List.nil_append]
+      simp only [opKids_append, hnm, opKids_tok, htail, List.append_nil]
       rw [opKids_single (node_hasChildren hxs)]
       rfl
     · simp [Tree.text, Tree.textList]
